@@ -7,6 +7,7 @@ from typing_extensions import Self
 from nada_dsl.operations import *
 from nada_dsl.program_io import Literal
 from nada_dsl import SourceRef
+from nada_dsl.errors import NotAllowedException
 from . import NadaType, Mode, BaseType, OperationType
 
 # Constant dictionary that stores all the Nada types and is use to
@@ -618,6 +619,14 @@ class EcdsaSignature(NadaType):
     def __init__(self, child: OperationType):
         super().__init__(child=child)
 
+    def __eq__(self, other):  # type: ignore
+        # The dataclass-generated equality would return a Python bool.
+        raise NotAllowedException(
+            "Nada values cannot be compared with ==; their values are only known at run time."
+        )
+
+    __hash__ = None  # type: ignore
+
 
 @dataclass
 class EcdsaDigestMessage(NadaType):
@@ -626,6 +635,14 @@ class EcdsaDigestMessage(NadaType):
     def __init__(self, child: OperationType):
         super().__init__(child=child)
 
+    def __eq__(self, other):  # type: ignore
+        # The dataclass-generated equality would return a Python bool.
+        raise NotAllowedException(
+            "Nada values cannot be compared with ==; their values are only known at run time."
+        )
+
+    __hash__ = None  # type: ignore
+
 
 @dataclass
 class EcdsaPrivateKey(NadaType):
@@ -633,6 +650,14 @@ class EcdsaPrivateKey(NadaType):
 
     def __init__(self, child: OperationType):
         super().__init__(child=child)
+
+    def __eq__(self, other):  # type: ignore
+        # The dataclass-generated equality would return a Python bool.
+        raise NotAllowedException(
+            "Nada values cannot be compared with ==; their values are only known at run time."
+        )
+
+    __hash__ = None  # type: ignore
 
     def ecdsa_sign(self, digest: "EcdsaDigestMessage") -> "EcdsaSignature":
         """Random operation for Secret integers."""
